@@ -1,4 +1,4 @@
-import PbVerif.Lemmas.MSetLazy
+import PbVerif.Lemmas.MSetTotal
 /-
 C47 — MessageSet encoding round-trips and matches the item format.
 
@@ -11,10 +11,12 @@ code by the `mset` harness (exact results and error codes of the messageset func
 Every theorem holds for ALL type ids 1 … 2^31-1, payloads, continuations (`rest`) and — where
 a `wantLen` / `det` parameter appears — for both paths and both marshalling modes.
 
-Two obligations are FALSE of the current code and are registered as refuted (checks/C47.json):
-* `lazy_roundtrip`   — negation `lazy_duplicate_item_lost` (known finding mset-lazy-duplicate-item-remarshal)
-* `paths_agree`      — negation `unknown_length_prefix_paths_differ` (known finding
-                       mset-unknown-item-nonminimal-length-fast-vs-reflection)
+History: two obligations — `lazy_roundtrip` and `paths_agree` — were FALSE of the code this check was
+first built against (known findings mset-lazy-duplicate-item-remarshal and
+mset-unknown-item-nonminimal-length-fast-vs-reflection).  Both defects were repaired in /repo
+(2afca19, ff1f95d); the model follows the repaired code and both obligations are now proved at full
+strength (sections 4, 5).  The old-code witnesses survive only as labelled regression examples in
+`C47.Old` (about definitions of the OLD code kept in Lemmas/MSetLazy.lean, namespace `MSet.Old`).
 -/
 namespace C47
 open Spec MSet
@@ -199,6 +201,12 @@ theorem consumeItem_total (w : Bool) (b : Bytes) :
     ∀ out, appendUnknown out b ≠ .error .fuel :=
   ⟨consumeItem_ne_fuel w b, unmarshalItems_ne_fuel w b, fun out => appendUnknownLoop_ne_fuel _ out b (by omega)⟩
 
+/-- the Go slice expression `message[nn:]` (merge of a further message field on the fast path) never
+panics: the `panic` result of the model is unreachable on any input shorter than 2^64 bytes -/
+theorem consumeItem_no_panic (w : Bool) (b : Bytes) (h : b.length < 2 ^ 64) :
+    consumeItem w b ≠ .error .panic ∧ unmarshalItems w b ≠ .error .panic :=
+  ⟨consumeItem_ne_panic w b h, unmarshalItems_ne_panic w b h⟩
+
 /-! ## 3. sets -/
 
 /-- Well-formed content.  `us` are the unresolved items the unknown bytes stand for. -/
@@ -306,99 +314,83 @@ theorem sizeSet_eq_length (det : Bool) (s : Content) (b : Bytes) (h : encodeSet 
 theorem sizeField_item (n : Nat) (p : Bytes) :
     (encodeItem n p).length = sizeField n + sizeTag 3 + sizeBytes p.length := encodeItem_length n p
 
-/-! ## 4. the lazily kept form of the fast path (refuted obligation `lazy_roundtrip`)
+/-! ## 4. the lazily kept form of the fast path -/
 
-FULL STATEMENT (false of the current code):
-  `lazy_roundtrip` : for every extension `t` kept as raw records `rs` (one per occurrence in the input),
-     decodeSet known w (encodeLazyItem t (lazyRecords t rs)) = .ok ⟨[(t, concatenation of the payloads of rs)], []⟩
-i.e. default Marshal of a lazily decoded MessageSet followed by Unmarshal gives the content back. -/
+/-- what the default Marshal writes for an extension kept as raw records `rs` (one `(length prefix,
+payload)` per occurrence in the input): ONE item, one message field per record -/
+theorem encodeLazyItem_format (t : Nat) (rs : List (Bytes × Bytes)) (hv : ∀ r ∈ rs, IsVarint r.1 r.2.length) :
+    encodeLazyItem t (lazyRecords t rs) = .ok (El.item (.typeId t :: lazyMsgs rs)).enc :=
+  encodeLazyItem_records t rs hv
 
-/-- `_partial`: it holds when the extension occurred ONCE (any valid length prefix): the lazily kept
-form IS the item with the received prefix, and decodes to the payload -/
-theorem lazy_roundtrip_partial (known : Nat → Bool) (w : Bool) {t : Nat} {lp p : Bytes}
-    (h1 : 1 ≤ t) (h2 : t < 2 ^ 31) (h3 : t ≠ 3) (h : IsVarint lp p.length) (hk : known t = true) :
-    encodeLazyItem t (lazyRecord t (lp ++ p)) = (rawItem t lp p).enc ∧
-    decodeSet known w (encodeLazyItem t (lazyRecord t (lp ++ p))) = .ok ⟨[(t, p)], []⟩ := by
-  have e := encodeLazyItem_records t lp p []
-  have d := decodeSet_lazyItem known w (t := t) (lp := lp) (p := p) [] h1 h2 h3 h (by simp) hk
-  simp only [lazyRecords, List.append_nil] at e d
-  exact ⟨by rw [e]; rfl, d⟩
+/-- LAZY ROUND TRIP, full strength: for every extension `t` kept as ANY number of raw records with any
+valid length prefixes, the pass-through does not panic, and decoding what it writes — on either
+path — gives the extension with the payloads of all occurrences appended, which is what decoding
+the original items eagerly gives (`decodeSet_duplicate_items`) -/
+theorem lazy_roundtrip (known : Nat → Bool) (w : Bool) {t : Nat} (rs : List (Bytes × Bytes))
+    (h1 : 1 ≤ t) (h2 : t < 2 ^ 31) (hrs : ∀ r ∈ rs, IsVarint r.1 r.2.length)
+    (hlen : (lazyPayload rs).length < 2 ^ 64) (hk : known t = true) :
+    ∃ b, encodeLazyItem t (lazyRecords t rs) = .ok b ∧
+      decodeSet known w b = .ok ⟨[(t, lazyPayload rs)], []⟩ :=
+  decodeSet_lazyItem known w rs h1 h2 hrs hlen hk
 
-/-- NEGATION, for all inputs: when the extension occurred more than once, the item written by the
-default Marshal decodes (on either path) to the FIRST occurrence only … -/
-theorem lazy_duplicate_item_lost (known : Nat → Bool) (w : Bool) {t : Nat} {lp p : Bytes} (rs : List (Bytes × Bytes))
-    (h1 : 1 ≤ t) (h2 : t < 2 ^ 31) (h3 : t ≠ 3) (h : IsVarint lp p.length)
-    (hrs : ∀ r ∈ rs, IsVarint r.1 r.2.length) (hk : known t = true) :
-    decodeSet known w (encodeLazyItem t (lazyRecords t ((lp, p) :: rs))) = .ok ⟨[(t, p)], []⟩ :=
-  decodeSet_lazyItem known w rs h1 h2 h3 h hrs hk
+example : ∃ b, encodeLazyItem 1000 (lazyRecords 1000
+      [(encVarint 2, [0x08#8, 0x01#8]), (encVarint 2, [0x10#8, 0x07#8])]) = .ok b ∧
+    decodeSet (fun t => t == 1000) true b = .ok ⟨[(1000, [0x08#8, 0x01#8, 0x10#8, 0x07#8])], []⟩ :=
+  lazy_roundtrip _ true _ (by omega) (by omega)
+    (by intro r hr; simp only [List.mem_cons, List.not_mem_nil, or_false] at hr
+        rcases hr with rfl | rfl <;> exact isVarint_enc (by simp))
+    (by simp [lazyPayload]) (by simp)
 
-/-- … whereas the content is the merge of all occurrences (`decodeSet_duplicate_items`): the witness
-of the known finding, type id 1000, payloads `08 01` and `10 07` -/
-theorem lazy_roundtrip_false :
-    let known : Nat → Bool := fun t => t == 1000
-    let p1 : Bytes := [0x08#8, 0x01#8]
-    let p2 : Bytes := [0x10#8, 0x07#8]
-    decodeSet known true (encodeItem 1000 p1 ++ encodeItem 1000 p2) = .ok ⟨[(1000, p1 ++ p2)], []⟩ ∧
-    decodeSet known true
-      (encodeLazyItem 1000 (lazyRecords 1000 [(encVarint p1.length, p1), (encVarint p2.length, p2)])) =
-        .ok ⟨[(1000, p1)], []⟩ ∧
-    p1 ≠ p1 ++ p2 := by
-  refine ⟨?_, ?_, by decide⟩
-  · exact decodeSet_duplicate_items _ true (by omega) (by omega) (by simp) (by simp) (by simp)
-  · exact lazy_duplicate_item_lost _ true _ (by omega) (by omega) (by omega) (isVarint_enc (by simp))
-      (by intro r hr; simp only [List.mem_cons, List.not_mem_nil, or_false] at hr; subst hr
-          exact isVarint_enc (by simp)) (by simp)
+/-- the size computed for the lazily kept form is the length of what is written -/
+theorem sizeLazyItem_eq_length {t : Nat} {lb out : Bytes} (h : encodeLazyItem t lb = .ok out) :
+    sizeLazyItem t lb = .ok out.length := encodeLazyItem_length h
 
-/-- the size computed for the lazily kept form is its length (so Size = length holds even there) -/
-theorem sizeLazyItem_eq_length (t : Nat) (lb : Bytes) (h : sizeTag t ≤ lb.length) :
-    (encodeLazyItem t lb).length = sizeLazyItem t lb := encodeLazyItem_length t lb h
+/-! ## 5. fast path = reflection path -/
 
-/-! ## 5. fast path = reflection path (refuted obligation `paths_agree`)
-
-FULL STATEMENT (false of the current code):
-  `paths_agree` : ∀ known b, decodeSet known true b = decodeSet known false b. -/
-
-/-- what each path stores for an unresolved item whose message field has the length prefix `lp`:
-the fast path keeps `lp` as received, the reflection path writes the minimal prefix -/
+/-- an unresolved item is stored byte for byte — length prefix `lp` as received — on both paths -/
 theorem unknown_item_stored (known : Nat → Bool) (w : Bool) {t : Nat} {lp p : Bytes}
     (h1 : 1 ≤ t) (h2 : t < 2 ^ 31) (h : IsVarint lp p.length) (hk : known t = false) :
-    decodeSet known w (rawItem t lp p).enc =
-      .ok ⟨[], tag t 2 ++ (if w then lp else encVarint p.length) ++ p⟩ :=
+    decodeSet known w (rawItem t lp p).enc = .ok ⟨[], tag t 2 ++ lp ++ p⟩ :=
   decodeSet_rawItem_unknown known w h1 h2 h hk
 
-/-- NEGATION, for all inputs: the two paths differ exactly when the prefix is not the minimal one -/
-theorem unknown_length_prefix_paths_differ (known : Nat → Bool) {t : Nat} {lp p : Bytes}
+/-- every value that `messageset.Unmarshal(b, true, fn)` hands to `fn` is read back by
+`protowire.ConsumeBytes` (so the extension coder of the fast path and the ignored error of
+`mv, _ := protowire.ConsumeBytes(v)` on the reflection path never see a failure) -/
+theorem callback_values_wellformed (b : Bytes) (hb : b.length < 2 ^ 64) (cs : List (Nat × Bytes))
+    (h : unmarshalItems true b = .ok cs) : ∀ x ∈ cs, ∃ p k, decBytes x.2 = .ok (p, k) :=
+  itemsLoop_result _ b hb cs h
+
+/-- PATHS AGREE, full strength: for EVERY resolver and EVERY input (shorter than 2^64 bytes) the
+fast path and the reflection path decode to the same content or fail alike -/
+theorem paths_agree (known : Nat → Bool) (b : Bytes) (hb : b.length < 2 ^ 64) :
+    decodeSet known true b = decodeSet known false b :=
+  decodeSet_paths known b hb
+
+/-! ## historical regression examples (the code BEFORE 2afca19 / ff1f95d) -/
+namespace Old
+open MSet.Old
+
+/-- before 2afca19: the item written for an extension that occurred more than once decoded to the
+FIRST occurrence only (type id 1000, payloads `08 01` and `10 07`) -/
+theorem old_lazy_duplicate_item_lost :
+    let p1 : Bytes := [0x08#8, 0x01#8]
+    let p2 : Bytes := [0x10#8, 0x07#8]
+    decodeSet (fun t => t == 1000) true
+      (MSet.Old.encodeLazyItem 1000 (lazyRecords 1000 [(encVarint p1.length, p1), (encVarint p2.length, p2)])) =
+        .ok ⟨[(1000, p1)], []⟩ :=
+  MSet.Old.decodeSet_lazyItem _ true _ (by omega) (by omega) (by omega) (isVarint_enc (by simp))
+    (by intro r hr; simp only [List.mem_cons, List.not_mem_nil, or_false] at hr; subst hr
+        exact isVarint_enc (by simp)) (by simp)
+
+/-- before ff1f95d: the reflection path rewrote the length prefix of an unresolved item minimally, so
+it differed from the fast path exactly on non-minimal prefixes (witness `0b1088271a820008010c`) -/
+theorem old_unknown_length_prefix_paths_differ (known : Nat → Bool) {t : Nat} {lp p : Bytes}
     (h1 : 1 ≤ t) (h2 : t < 2 ^ 31) (h : IsVarint lp p.length) (hk : known t = false) :
-    decodeSet known true (rawItem t lp p).enc = decodeSet known false (rawItem t lp p).enc ↔
+    decodeSetRefl known (rawItem t lp p).enc = decodeSet known true (rawItem t lp p).enc ↔
       lp = encVarint p.length := by
-  rw [unknown_item_stored known true h1 h2 h hk, unknown_item_stored known false h1 h2 h hk]
-  simp
+  rw [decodeSetRefl_rawItem_unknown known h1 h2 h hk, unknown_item_stored known true h1 h2 h hk]
+  simp [wBytes, eq_comm]
 
-/-- the witness of the known finding: type id 5000, payload `08 01`, length prefix `82 00` -/
-theorem paths_agree_false :
-    let b := (rawItem 5000 [0x82#8, 0x00#8] [0x08#8, 0x01#8]).enc
-    decodeSet (fun _ => false) true b ≠ decodeSet (fun _ => false) false b := by
-  intro b
-  have hv : IsVarint [0x82#8, 0x00#8] ([0x08#8, 0x01#8] : Bytes).length := by
-    intro r; simp [decVarint, decVarintAux]
-  rw [Ne, unknown_length_prefix_paths_differ _ (by omega) (by omega) hv rfl]
-  rw [encVarint_lt (by simp)]
-  decide
-
-/-- `_partial`: on the encoder's own output (minimal prefixes) the two paths agree — this is
-`decodeSet_encodeSet`, whose right-hand side does not depend on `w` -/
-theorem paths_agree_partial (known : Nat → Bool) (det : Bool) (s : Content) (us : List (Nat × Bytes))
-    (h : WF known s us) :
-    ∃ b, encodeSet det s = .ok b ∧ decodeSet known true b = decodeSet known false b := by
-  obtain ⟨b, hb, _⟩ := decodeSet_encodeSet known true det s us h
-  obtain ⟨b', hb', hd'⟩ := decodeSet_encodeSet known false det s us h
-  obtain ⟨_, _, hd⟩ := decodeSet_encodeSet known true det s us h
-  exact ⟨b, hb, by
-    have : b = b' := by rw [hb] at hb'; exact (Except.ok.inj hb')
-    subst this
-    obtain ⟨b2, hb2, hd2⟩ := decodeSet_encodeSet known true det s us h
-    have : b = b2 := by rw [hb] at hb2; exact (Except.ok.inj hb2)
-    subst this
-    rw [hd2, hd']⟩
+end Old
 
 end C47
